@@ -5,6 +5,7 @@ mod queue;
 mod seqds;
 mod simcore;
 mod taskeng;
+mod timecell;
 
 fn main() {
     let args: Vec<String> = std::env::args().collect();
@@ -18,6 +19,7 @@ fn main() {
         "bench" => bench::main(&args[2..]),
         "queue" => queue::main(&args[2..]),
         "task" => taskeng::main(&args[2..]),
+        "timecell" => timecell::main(&args[2..]),
         other => {
             eprintln!("unknown engine {}", other);
             std::process::exit(2);
